@@ -160,6 +160,7 @@ Apply(name, left, args, cfg) ==
                 [] OTHER -> Nil)
     [] name = "join" ->
          IF Len(args) > 1 THEN Err("LiquidTypeError")
+         ELSE IF \E i \in DOMAIN seq : Unprintable(seq[i]) THEN Err("UNSPEC")
          ELSE LET sepv == IF Len(args) = 1 THEN a1 ELSE Str(" ")
               IN IF ae
                  THEN \* Markup result: every piece and the separator are escaped unless safe
